@@ -19,6 +19,8 @@ JOBS = {
                        nontrivial=unify_nontrivial, timeout={"quick": 300, "thorough": 1800}),
     "unify-fn": dict(module="MC_Unify", constants={"Slice": "fn"}, invariants=UNIFY_INV,
                      nontrivial=unify_nontrivial, timeout={"quick": 300, "thorough": 900}),
+    "unify-arith": dict(module="MC_Unify", constants={"Slice": "arith"}, invariants=UNIFY_INV,
+                        nontrivial=unify_nontrivial, timeout={"quick": 900, "thorough": 3000}),
 }
 
 BIP_INV = ["KeepsPrior", "AcyclicRes", "CmpBindsNothing", "CmpLaws", "AppendLen", "FilterPartition", "Emit"]
@@ -69,7 +71,18 @@ PROPS = {
     "C17": dict(jobs=["bip-count", "bip-filter", "bip-functor", "unify-fn"], level="model_checking",
                 rule="count / include / exclude / functor calls over the list, pattern and complex-term universes of MC_Builtins x priors, and join(...) function terms of the fn slice",
                 assumptions=["join is only claimed for atom / small-integer words"]),
+    "C12": dict(jobs=["unify-arith"], level="model_checking",
+                rule="add/subtract/multiply/divide over every argument list of 1-3 numbers of the exact-number universe (and 4 over a smaller one), literal, through bound variables and variable chains, unified with a variable and with constants; excluded: lists whose fold is not exactly representable (overflow, integer division by zero, inexact float results)",
+                assumptions=["IEEE rounding of inexact float operations is not modelled: only argument lists whose every intermediate result is exactly representable are claimed",
+                             "the infix forms + - * / are produced by the parser slices (C19/C20), which map them to these function terms"]),
     "C13": dict(jobs=["unify-fn"], level="model_checking",
                 rule="every function term of the universe (4 arithmetic functions x 6 argument lists, 5 joins) against variables, constants of every type and other function terms, both orders, bare and nested in f(_) and in a list, under 6 priors",
                 assumptions=["arithmetic is exact (dyadic) in the model: inputs whose fold is not exactly representable are excluded"]),
+}
+
+LEVEL_TEXT = ("TLC explores the relevant state machine of the TLA+ specification exhaustively over a bounded universe, checks the property as "
+              "invariants of the specification against an independent declarative definition in the same modules, and every explored behaviour "
+              "(input, expected observation after each step) is replayed against the real crate and compared; bounded-exhaustive rather than a proof")
+NOT_APPLICABLE = {
+    "C24": "undefined behaviour (aliasing through RefCell::as_ptr, data races on static mut, out-of-bounds, use-after-free) is a property of the Rust abstract machine's memory model, which a TLA+ specification of the engine's abstract state neither represents nor observes; only an execution-level UB detector decides it (DESIGN.md section 6)",
 }
